@@ -64,11 +64,12 @@ def duplicates(env, lp, npol, method, pre, cont, N=2, A=2, d=1, labels='int', tw
     for k, op in enumerate(cont):
         tag = '%s%d' % (op, k)
         pair = (cp, ref)
-        if op in 'PF':
+        if op in 'PFD':
+            # P: partial_fit with one row, D: partial_fit with two rows, F: fit with two rows
             dec, rew, ctx = gen_batch(env, tag.lower(), cur, 1, rk, d=ctxd, fixed_n=1 if op == 'P' else 2)
             args = (np.asarray(dec), rew) + ((ctx,) if ctxd else ())
             for b in pair:
-                (b.partial_fit if op == 'P' else b.fit)(*args)
+                (b.fit if op == 'F' else b.partial_fit)(*args)
         elif op == 'A':
             a = spare.pop(0)
             for b in pair:
@@ -148,6 +149,11 @@ def scenarios(tier):
                                 weight=400 if npol else 30, max_paths=60000, shards=4 if npol else 1,
                                 bounds=dict(lp='thompson + uninterpreted binarizer', np=npol, method=mth,
                                             before='F, query, add_arm(new binarizer)', after='queries on the copy itself')))
+    # an arm added before the copy and trained with a two-row batch after it (its tree is grown by the copy)
+    for mth in (['deepcopy'] if q else METHODS_T):
+        out.append(Scenario('ucb1.tree.%s.preA.contD' % mth, duplicates,
+                            dict(lp='ucb1', npol='tree', method=mth, pre='A', cont='D'), weight=400, max_paths=60000, shards=4,
+                            bounds=dict(lp='ucb1', np='tree', method=mth, before='FA', after='partial_fit with two rows')))
     out.append(Scenario('twin.ucb1', duplicates, dict(lp='ucb1', npol=None, method='p4', pre='A', cont='P', twin=True),
                         twin=True))
     return out
